@@ -7,9 +7,9 @@ git checkout -q -- . ; git clean -fdq conformance-tests/tests
 git apply "$patch" || { echo "$name: patch does not apply"; exit 2; }
 suite=$(cargo test --workspace --no-fail-fast --offline 2>&1 | grep -E "^test result" | awk '{p+=$4; f+=$6} END {print p" passed "f" failed"}')
 cp "$demo" conformance-tests/tests/seed_demo.rs
-with=$(cargo test -p conformance-tests --test seed_demo --offline 2>&1 | grep -E "^test result" | tail -1)
+with=$(cargo test -p conformance-tests --test seed_demo --offline $CONFIRM_ARGS 2>&1 | grep -E "^test result" | tail -1)
 git checkout -q -- .
-without=$(cargo test -p conformance-tests --test seed_demo --offline 2>&1 | grep -E "^test result" | tail -1)
+without=$(cargo test -p conformance-tests --test seed_demo --offline $CONFIRM_ARGS 2>&1 | grep -E "^test result" | tail -1)
 rm -f conformance-tests/tests/seed_demo.rs
 echo "$name | suite with change: $suite | demo with change: $with | demo without: $without"
 mkdir -p /verif/seeded/$name
